@@ -10,10 +10,10 @@ import (
 	"github.com/hujm2023/go-sms-protocol/datacoding"
 	gsm7 "github.com/hujm2023/go-sms-protocol/datacoding/gsm7encoding"
 	"github.com/hujm2023/go-sms-protocol/packet"
+	"github.com/hujm2023/go-sms-protocol/sgip"
 	"github.com/hujm2023/go-sms-protocol/sgip/sgip12"
 	"github.com/hujm2023/go-sms-protocol/smgp"
 	"github.com/hujm2023/go-sms-protocol/smgp/smgp30"
-	"github.com/hujm2023/go-sms-protocol/sgip"
 	"github.com/hujm2023/go-sms-protocol/smpp"
 )
 
